@@ -95,6 +95,15 @@ Definition fn_opcode (name : str) (args : list expr) : opcode :=
   else if fn_is name s_string_length then by_arity args OP_FUNCTION_STRINGLENGTH_0 OP_FUNCTION_STRINGLENGTH_1
   else OP_FUNCTION.
 
+(* the same decision read off the regenerated compiler table (GenExec.compiler_fn_table:
+   XPathProcessorImpl::s_functionTable, the cases of FunctionCall() and the replaceOpCode calls of the
+   Function*() parsers); ExecModel.fn_opcode_follows_compiler proves the two equal *)
+Definition compiler_fn_opcode (name : str) (args : list expr) : opcode :=
+  match find (fun row => str_eqb name (fst (fst row))) compiler_fn_table with
+  | Some (_, op0, alt) => match args, alt with _ :: _, Some op1 => op1 | _, _ => op0 end
+  | None => OP_FUNCTION
+  end.
+
 Definition opcode_of (e : expr) : opcode :=
   match e with
   | EOr _ _ => OP_OR | EAnd _ _ => OP_AND
